@@ -52,7 +52,11 @@ impl TimerState {
 
     pub(super) fn init(&mut self, cx: &mut Context<'_>) {
         if let TimerState::Active { timer } = self {
-            let _ = timer.as_mut().poll(cx);
+            // deadlines are computed from a cached clock and can already have passed; a timer that
+            // completes here registers no wake-up, so ask to be polled again to act on it
+            if timer.as_mut().poll(cx).is_ready() {
+                cx.waker().wake_by_ref();
+            }
         }
     }
 }
